@@ -348,4 +348,51 @@ theorem map_uToT_of_noU (bs : List UInt8) (h : ∀ b ∈ bs, b ≠ 85 ∧ b ≠ 
   have := h b hb
   simp [uToT, this.1, this.2]
 
+/-- … also on what is read off such residues (a complemented residue is never U / u) -/
+theorem map_uToT_map_readAt_of_noU (bs : List UInt8) (d : List Pos) (hb : denIn bs.length d)
+    (h : ∀ b ∈ bs, b ≠ 85 ∧ b ≠ 117) : (d.map (readAt bs)).map uToT = d.map (readAt bs) := by
+  rw [List.map_map]
+  apply List.map_congr_left
+  intro p hp
+  obtain ⟨x, r⟩ := p
+  have hin := hb _ hp
+  have hx : x.toNat < bs.length := by simp only at hin; omega
+  simp only [Function.comp]
+  rw [readAt_getElem bs x r hin.1 hx]
+  cases r
+  · have := h _ (List.getElem_mem hx)
+    simp [rd, uToT, this.1, this.2]
+  · simp [rd, uToT_complementByte]
+
+/-- the position map of the reverse complement is its own inverse -/
+theorem map_revcompPos_involutive (L : Int) (d : List Pos) :
+    (d.map fun p => (L - 1 - p.1, !p.2)).map (fun p => (L - 1 - p.1, !p.2)) = d := by
+  rw [List.map_map, List.map_congr_left (g := id), List.map_id]
+  intro p _
+  apply Prod.ext
+  · simp only [Function.comp, id]; omega
+  · simp
+
+theorem nodup_map_revcompPos (L : Int) (d : List Pos) (h : d.Nodup) :
+    (d.map fun p => (L - 1 - p.1, !p.2)).Nodup := by
+  refine List.Pairwise.map _ ?_ h
+  intro a b hab he
+  apply hab
+  have h1 := (Prod.mk.inj he).1
+  have h2 := (Prod.mk.inj he).2
+  apply Prod.ext
+  · omega
+  · simpa using h2
+
+theorem denIn_map_revcompPos {L : Int} {d : List Pos} (h : denIn L d) :
+    denIn L (d.map fun p => (L - 1 - p.1, !p.2)) := by
+  intro q hq
+  obtain ⟨p, hp, rfl⟩ := List.mem_map.mp hq
+  have := h p hp
+  simp only
+  omega
+
+theorem Loc.wf_complement (l : Loc) : Loc.wf (Loc.complement l) = Loc.wf l := by
+  cases l <;> simp [Loc.complement, Loc.wf]
+
 end Gts
